@@ -141,6 +141,7 @@ func c13Config() world.Config {
 
 var c13Seed = []world.Op{
 	opDel(0, 0, "aaa", "1000000"), opDel(1, 1, "aaa", "1000000"), opDel(1, 0, "bbb", "500000"), opDel(2, 1, "aaa", "250000"),
+	opDel(2, 0, "aaa", "1"), // a dust position whose share of a reward truncates to zero
 	opBlock(1),
 }
 
@@ -172,6 +173,7 @@ func init() {
 					world.Op{K: world.KRedelegate, D: 1, V: 1, V2: 0, Denom: "aaa", Amt: "400000", Class: ClsUser},
 					world.Op{K: world.KRedelegate, D: 2, V: 1, V2: 2, Denom: "aaa", Amt: "100000", Class: ClsUser},
 					world.Op{K: world.KUndelegate, D: 1, V: 1, Denom: "aaa", Amt: "300000", Class: ClsUser},
+					world.Op{K: world.KDelegate, D: 2, V: 0, Denom: "aaa", Amt: "500000", Class: ClsUser}, // top-up of the dust position
 				)
 				ops = append(ops, world.Op{K: world.KBlock, Dt: int64(U), Class: ClsBlock})
 				return ops
